@@ -49,6 +49,10 @@ def main(tier, seed):
         g = dbgen.Gen(seed + ci, {})
         g.ids = 50
         bat = battery(g)
+        if ci % 2 == 1:
+            # the insert comes FIRST, before any read has touched the handle again (a read seeks, and hides what the failed call left behind)
+            ins = [o for o in bat if o[0] == "insert"][:1]
+            bat = ins + [o for o in bat if o not in ins]
         def allowed(st, extra=()):
             """old, new, or old plus a prefix of the inserted points - followed by what follow-ups inserted since"""
             extra = list(extra)
@@ -96,6 +100,8 @@ def main(tier, seed):
                     # first seek; a write is judged on what the file held after the previous follow-up, all of which seek)
                     is_write = o[0] in ("insert", "update_all", "update", "remove")
                     base = prev if is_write else disk
+                    if is_write and o is r["follow"][0][0]:
+                        base = None           # nothing has sought since the fault: a row still buffered may reach the file now (judged by allowed() below)
                     if base is not None and not isinstance(base, tuple):
                         try:
                             db2, want = pyspec.step([dict(x) for x in base], o)
